@@ -103,11 +103,15 @@ type rankW struct {
 	quit    chan struct{}
 }
 
+// note records the score the ranking effectively uses for p after a call that
+// names p: its entry, or the default when it has none.
 func (r *rankW) note(p string) {
 	r.mu.Lock()
-	if s, ok := query.VerifScore(r.inner, p); ok {
-		r.score[p] = s
+	s, ok := query.VerifScore(r.inner, p)
+	if !ok {
+		s = 4
 	}
+	r.score[p] = s
 	r.mu.Unlock()
 }
 func (r *rankW) AddPeer(p string)      { r.inner.AddPeer(p); r.note(p) }
@@ -186,6 +190,8 @@ type caseRun struct {
 	// a free worker was made to exit while the dispatcher was about to offer
 	// it the head job (a hang after that is reported with this tag)
 	exitedWhileOffered bool
+	// no shutdown before the case's churn burst has happened
+	holdQuit bool
 }
 
 func (c *caseRun) hangObs() string {
@@ -297,7 +303,7 @@ func (c *caseRun) handleOffer(oc orderCall, quitting bool) {
 			rest = append(rest, w)
 		}
 	}
-	if len(rest) > 0 && !c.stopped && c.rng.Intn(100) < 2 {
+	if len(rest) > 0 && !c.stopped && !c.holdQuit && c.rng.Intn(100) < 2 {
 		c.quitInOffer = true
 		resume()
 		c.t.Hit("quit.while-offering")
@@ -700,6 +706,22 @@ func (c *caseRun) doResult(w *workerT, kind string) {
 	c.barrier()
 }
 
+// doChurn: n short-lived peers with addresses never seen before connect and go
+// away again, one after the other, while the long-lived peers stay connected.
+func (c *caseRun) doChurn(first, n int) {
+	c.t.Hit("ev.churn-burst")
+	for k := 0; k < n && !c.hung && !c.stopped && !c.skewed; k++ {
+		id := first + k
+		c.doPeer(id)
+		if c.hung || c.stopped {
+			return
+		}
+		if w := c.workers[id]; w != nil && !w.exited {
+			c.exitWorker(w, "ev.exit.churn")
+		}
+	}
+}
+
 func (c *caseRun) doWake(b, g int) {
 	c.begin(fmt.Sprintf("wake %d %d", b, g))
 	if !query.VerifWake(c.wm, uint64(b), uint64(g)) {
@@ -734,7 +756,7 @@ func (c *caseRun) final() {
 
 // ---- generator ---------------------------------------------------------
 
-func runCase(t *sink, idx int, rng *rand.Rand, steps int, allowMid bool) (hung bool) {
+func runCase(t *sink, idx int, rng *rand.Rand, steps int, allowMid bool, churn int) (hung bool) {
 	t.line("case %d", idx)
 	c := &caseRun{t: t, rng: rng, workers: map[int]*workerT{}, reqs: map[*query.Request][2]int{},
 		peerCh: make(chan query.Peer), allowMid: allowMid}
@@ -758,7 +780,20 @@ func runCase(t *sink, idx int, rng *rand.Rand, steps int, allowMid bool) (hung b
 
 	usedMid := false
 	lateLeft := rng.Intn(3)
+	churnAt := -1
+	if churn > 0 {
+		// peer churn at scale: the burst comes once some peers have earned a
+		// record, and enough events follow for the records to show
+		steps += 30
+		churnAt = steps / 2
+		c.holdQuit = true
+	}
 	for i := 0; i < steps && !c.hung && !c.skewed; i++ {
+		if i == churnAt && !c.stopped {
+			c.doChurn(1000, churn)
+			c.holdQuit = false
+			continue
+		}
 		if c.stopped {
 			if lateLeft == 0 {
 				break
@@ -865,7 +900,7 @@ func runCase(t *sink, idx int, rng *rand.Rand, steps int, allowMid bool) (hung b
 			}
 		case r < 96 && len(liveW) > 0:
 			c.exitWorker(liveW[rng.Intn(len(liveW))], "ev.exit")
-		case r < 97:
+		case r < 97 && !c.holdQuit:
 			c.doQuit()
 		}
 	}
@@ -892,9 +927,15 @@ func runCase(t *sink, idx int, rng *rand.Rand, steps int, allowMid bool) (hung b
 
 // caseParams derives everything random about case idx from the seed alone, so
 // that a restarted child continues with the same cases.
-func caseParams(idx, n, mid int) (*rand.Rand, int, bool) {
+func caseParams(idx, n, mid int) (*rand.Rand, int, bool, int) {
 	rng := tr.Rng(int64(12 + 7919*(idx+1)))
-	return rng, 8 + rng.Intn(40), idx%(n/(3*mid)+1) == 0
+	steps, allowMid := 8+rng.Intn(40), idx%(n/(3*mid)+1) == 0
+	churn := 0
+	if idx%100 == 50 {
+		// a few cases per run: well over a hundred distinct short-lived addresses
+		churn = 130 + rng.Intn(220)
+	}
+	return rng, steps, allowMid, churn
 }
 
 func sizes(thorough bool) (n, mid int) {
@@ -925,8 +966,8 @@ func child(_ *tr.W, thorough bool) {
 	n, mid := sizes(thorough)
 	hung := 0
 	for idx := from; idx < to; idx++ {
-		rng, steps, allowMid := caseParams(idx, n, mid)
-		if runCase(o, idx, rng, steps, allowMid) {
+		rng, steps, allowMid, churn := caseParams(idx, n, mid)
+		if runCase(o, idx, rng, steps, allowMid, churn) {
 			// the dispatcher of that case is stuck for good (its goroutines are
 			// left behind); a few of those settle the verdict
 			if hung++; hung >= maxHungCases {
@@ -1106,5 +1147,131 @@ func Run(t *tr.W, thorough bool) {
 			t.Line("# giving up after %d crashes", crashes)
 			break
 		}
+	}
+	rankCases(t, thorough)
+}
+
+// rankCases drives the stock ranking (query.NewPeerRanking) on its own: a few
+// long-lived addresses earn records through Reward / Punish / ResetRanking,
+// bursts of AddPeer for addresses never seen before (peer churn; the work
+// manager calls AddPeer for every peer that connects and is never told about
+// a disconnect) come in between, Order is asked about the long-lived ones.
+func rankCases(t *tr.W, thorough bool) {
+	n := 16 * tr.EnvInt("VERIF_BUDGET", 1)
+	if thorough {
+		n *= 10
+	}
+	if os.Getenv("VERIF_SEARCH") != "" {
+		n = 3 * 16
+	}
+	for i := 0; i < n; i++ {
+		rng := tr.Rng(int64(9001 + 17*i))
+		t.Case("rank")
+		rk := query.NewPeerRanking()
+		guard := func(op string, f func() string) {
+			defer func() {
+				if r := recover(); r != nil {
+					t.Op(op, "PANIC in the ranking")
+				}
+			}()
+			t.Op(op, f())
+		}
+		addr := func(p int) string { return fmt.Sprintf("p%d", p) }
+		long := 2 + rng.Intn(4)
+		fresh, distinct := 1000, map[int]bool{}
+		call := func(name string, p int, f func(string)) {
+			guard(fmt.Sprintf("%s %d", name, p), func() string { f(addr(p)); return "-" })
+			t.Hit("rank." + name)
+		}
+		order := func(ps []int) {
+			as := make([]string, len(ps))
+			var in []string
+			for k, p := range ps {
+				as[k] = addr(p)
+				in = append(in, strconv.Itoa(p))
+			}
+			guard("order "+strings.Join(in, " "), func() string {
+				rk.Order(as)
+				var out []string
+				for _, a := range as {
+					out = append(out, strconv.Itoa(addrID(a)))
+				}
+				return strings.Join(out, " ")
+			})
+			t.Hit("rank.order")
+		}
+		burst := func(k int) {
+			if k <= 0 {
+				return
+			}
+			guard(fmt.Sprintf("churn %d %d", fresh, k), func() string {
+				for j := 0; j < k; j++ {
+					rk.AddPeer(addr(fresh + j))
+				}
+				return "-"
+			})
+			fresh += k
+			t.Hit("rank.churn-burst")
+			if fresh-1000+len(distinct) > 128 {
+				t.Hit("rank.churn-over-128-addresses")
+			}
+		}
+		some := func() []int {
+			ps := rng.Perm(long)
+			k := 2 + rng.Intn(long-1)
+			out := make([]int, 0, k+1)
+			for _, p := range ps[:k] {
+				out = append(out, p+1)
+			}
+			if rng.Intn(5) == 0 {
+				// an address the ranking was never told about counts as default
+				out = append(out, 900+rng.Intn(5))
+				rng.Shuffle(len(out), func(a, b int) { out[a], out[b] = out[b], out[a] })
+			}
+			return out
+		}
+		step := func() {
+			p := 1 + rng.Intn(long)
+			switch r := rng.Intn(100); {
+			case r < 12:
+				distinct[p] = true
+				call("add", p, rk.AddPeer)
+			case r < 42:
+				call("reward", p, rk.Reward)
+			case r < 66:
+				call("punish", p, rk.Punish)
+			case r < 70:
+				call("reset", p, rk.ResetRanking)
+			case r < 78:
+				burst(1 + rng.Intn(6))
+			default:
+				order(some())
+			}
+		}
+		for p := 1; p <= long; p++ {
+			if rng.Intn(6) != 0 {
+				distinct[p] = true
+				call("add", p, rk.AddPeer)
+			}
+		}
+		for k, m := 0, 6+rng.Intn(14); k < m; k++ {
+			step()
+		}
+		// the big burst: usually far beyond a hundred addresses, sometimes
+		// right around 128 in total
+		switch rng.Intn(4) {
+		case 0:
+			burst(128 - len(distinct) - (fresh - 1000) - 1 + rng.Intn(4))
+		default:
+			burst(130 + rng.Intn(400))
+		}
+		for k, m := 0, 8+rng.Intn(16); k < m; k++ {
+			step()
+		}
+		all := rng.Perm(long)
+		for k := range all {
+			all[k]++
+		}
+		order(all)
 	}
 }
